@@ -539,7 +539,7 @@ def main():
     for name, fn in jobs:
         try:
             text = fn(repo)
-        except (Unsupported, SyntaxError, OSError, KeyError, AttributeError, IndexError,
+        except (Unsupported, gen_tables.Unsupported, SyntaxError, OSError, KeyError, AttributeError, IndexError,
                 ValueError, TypeError) as exc:
             # fail closed: emit a file that cannot compile and say why
             text = ("(* GENERATED: translation FAILED -- %s *)\n"
